@@ -4,3 +4,4 @@ import SfModel.Float
 import SfModel.G711
 import SfModel.Pcm
 import SfModel.Handle
+import SfModel.Chunk
